@@ -8,6 +8,14 @@ from harness.props import argslib as L
 SPEC = os.path.join(T.SPECS, "ArgsParser")
 
 
+def run_sequence_light(formats, fobjs, reqs):
+    from clikit.args import DefaultArgsParser
+
+    shared = DefaultArgsParser()
+    return [L.event_light(formats[fi - 1], fobjs[fi - 1], toks, lenient, shared, form="string" if k % 2 == 0 else "argv")
+            for k, (fi, lenient, toks) in enumerate(reqs)]
+
+
 def run_sequence(formats, fobjs, reqs, via_command=False, throwaway=False):
     """reqs: list of (format index (1-based), lenient, tokens).  One parser object for the whole sequence.
     throwaway: every request gets a format object of its own that nobody keeps (the long-lived parser outlives the
@@ -60,7 +68,7 @@ def _run(ctx):
     nmis = 0
     for h in hists:
         reqs = [(e["f"], e["lenient"], [L.txt(t) for t in e["line"]]) for e in h]
-        evs = run_sequence(formats, fobjs, reqs)
+        evs = run_sequence_light(formats, fobjs, reqs)   # (the full events only for what goes to the trace module)
         ctx.count()
         ok = all(ev["obs"]["err"] == e["err"] and ev["obs"]["result"] == e["result"] and ev["obs"] == ev["fresh"] and ev["untouched"]
                  for ev, e in zip(evs, h))
@@ -68,7 +76,7 @@ def _run(ctx):
             ctx.nontriv(json.dumps(reqs))
         if not ok or ctx.rng.random() < 0.02:
             nmis += (not ok)
-            traces.append(evs)
+            traces.append(run_sequence(formats, fobjs, reqs))
             cases.append({"formats": "seq", "reqs": reqs})
     ctx.extra["tlc_sequences_replayed"] = len(hists)
     ctx.extra["tlc_sequences_not_reproduced"] = nmis
